@@ -57,6 +57,18 @@ Proof.
   all: crunchT HI ltac:(pose proof (i_created _ HI x cf)).
 Qed.
 
+Lemma pres_susp s a s' (HI : Inv s) (H : step s a = Some s') : forall x y, main (gt s' x) = JSusp y -> cb (gt s' x) = CbNone -> join_thread (gt s' y) = Some x /\ before_readjoin (gt s' y) = true.
+Proof.
+  destruct a as [j e]. intros x y. step_inv H.
+  all: crunchT HI ltac:(pose proof (i_noself _ HI x); pose proof (i_noself _ HI y); pose proof (i_noself _ HI j); pose proof (i_susp _ HI x y); pose proof (i_susp _ HI x j); pose proof (i_susp _ HI j y); pose proof (i_cbjs _ HI j y); pose proof (i_cbjs _ HI x y); pose proof (i_jt _ HI j x); pose proof (i_claim _ HI x y); pose proof (i_claim _ HI j y); pose proof (i_claim _ HI x x); pose proof (i_claim _ HI j j); pose proof (d_fin_cases _ y HI); pose proof (i_lock_b _ HI j y); pose proof (i_cbdet_f _ HI y); pose proof (i_det_rdone _ HI y); pose proof (i_rdone_p _ HI y j); pose proof (i_rdone_p _ HI y x); pose proof (d_status_fin _ y HI)).
+Qed.
+
+Lemma pres_noself s a s' (HI : Inv s) (H : step s a = Some s') : forall x, join_pc (main (gt s' x)) x = false.
+Proof.
+  destruct a as [j e]. intros x. step_inv H.
+  all: crunchT HI ltac:(pose proof (i_noself _ HI x); pose proof (i_noself _ HI j)).
+Qed.
+
 Lemma pres_clock s a s' (HI : Inv s) (H : step s a = Some s') : 0 < clock s'.
 Proof.
   destruct a as [j e]. step_inv H.
